@@ -678,26 +678,24 @@ def _run_legacy_checks(self, res):
             not s.ghost.get("attrs") and not s.ghost.get("map_writes")
         obls.append(core.Obligation(nm, "W", s.pc, z3.BoolVal(bool(ok)),
                                     note="gen_type_check writes nothing and returns a new function defined inside it (a closure; nothing shared with pre-existing checkers)"))
-    self.finish(res, ctx, obls)
-    # (2) type_check, for every JSON value
-    repo, ctx, _ = _legacy_ctx(self.root)
-    unit = repo.unit("validators:_generate_legacy_type_checks.gen_type_check.type_check")
-    hashes += unit.source_hash()
-    I = Interp(ctx)
-    st = State()
-    st.unit = unit
-    st.closure = {"pytypes": PyTypesV("pytypes", True)}
+    # (2) the closure gen_type_check returned, called on every JSON value (whatever its free variables are called)
     x = SV(z3.Const("instance", V))
-    outs = I.run_unit(unit, st, [Ident("checker"), x], {})
-    res["paths"] += len(outs)
-    obls = list(ctx.obligations)
-    from pyvc.interp import truth
-    for n, (s, ctl) in enumerate(outs):
-        nm = "%s/W/type_check#%d" % (self.name, n + 1)
-        if ctl[0] != "return":
+    n2 = 0
+    for s, ctl in outs:
+        if ctl[0] != "return" or not isinstance(ctl[1], FuncRef):
             continue
-        obls.append(core.Obligation(nm + ".pure", "W", s.pc, z3.BoolVal(not s.ghost.get("attrs") and not s.ghost.get("map_writes")),
-                                    note="a legacy type check writes nothing"))
+        if ctl[1].key in repo.units:
+            hashes += repo.unit(ctl[1].key).source_hash()
+        outs2 = I.call_func(s, ctl[1], [Ident("checker"), x], {}, None)
+        res["paths"] += len(outs2)
+        for s2, r2 in outs2:
+            n2 += 1
+            if isinstance(r2, Raised):
+                continue
+            obls.append(core.Obligation("%s/W/type_check#%d.pure" % (self.name, n2), "W", s2.pc,
+                                        z3.BoolVal(not s2.ghost.get("attrs") and not s2.ghost.get("map_writes")),
+                                        note="a legacy type check writes nothing"))
+    obls = [o for o in ctx.obligations if o not in obls] + obls
     self.finish(res, ctx, obls)
     res["source_hash"] = hashes
 
